@@ -10,7 +10,7 @@ from trie.exceptions import NodeOverrideError  # noqa: E402
 from eth_hash.auto import keccak  # noqa: E402
 
 ID = "C12"
-LEAN_IMPORTS = ["PyTrie.Props.C12", "PyTrie.Props.RawLevel", "PyTrie.Props.NonVacuity", "PyTrie.Props.NonVacuity2"]
+LEAN_IMPORTS = ["PyTrie.Props.C12", "PyTrie.Props.RawLevel", "PyTrie.Props.NonVacuity", "PyTrie.Props.NonVacuity2", "PyTrie.Props.NonVacuity3"]
 THEOREMS = [
     "PyTrie.Props.C12.canon_run",
     "PyTrie.Props.C12.get_step",
@@ -44,6 +44,10 @@ THEOREMS = [
     "PyTrie.Props.Raw.binT_agrees",
     "PyTrie.Props.Raw.bin_refused_saves_nothing",
     "PyTrie.Props.Raw.bin_db_add_only",
+    "PyTrie.Props.NonVacuity3.bin_prefix_saves_nothing",
+    "PyTrie.Props.NonVacuity3.bin_past_saves_nothing",
+    "PyTrie.Props.NonVacuity3.bin_deep_saves_nothing",
+    "PyTrie.Props.NonVacuity3.bin_delete_saves_nothing",
 ]
 RULE = ("histories of set / delete / delete_subtrie (method and dict syntax) over fixed-length and variable-length key pools "
         "with prefix-related keys, keys differing at every bit position of a byte, repeated values; after every call the outcome "
